@@ -196,6 +196,9 @@ class Case:
         return "unclassified" if self.oracle.startswith("FAIL") else None
 
 
+DEFS = {}
+
+
 def read_cases(path):
     cases, stats = [], {}
     with open(path) as f:
@@ -206,6 +209,9 @@ def read_cases(path):
             parts = line.split("\t")
             if parts[0] == "#STAT":
                 stats[parts[1]] = parts[2] if len(parts) > 2 else ""
+                continue
+            if parts[0] == "#DEF":
+                DEFS[parts[1]] = parts[2]
                 continue
             if len(parts) != 6:
                 raise ValueError("bad harness line: " + line[:200])
@@ -220,6 +226,10 @@ def read_cases(path):
 def write_cases_v(path, run_module, cases, base, chunk=100):
     with open(path, "w") as f:
         f.write("From LC Require Import %s.\nOpen Scope N_scope.\n" % run_module)
+        text = "\n".join(c.model for c in cases)
+        for name, term in DEFS.items():
+            if name in text:
+                f.write("Definition %s := %s.\n" % (name, term))
         for c0 in range(0, len(cases), chunk):
             part = cases[c0:c0 + chunk]
             f.write("Eval vm_compute in (mismatches_from %d [\n" % (base + c0))
@@ -263,7 +273,11 @@ def eval_model(run_module, cases, wdir, shard_size=400):
 def model_value(run_module, case, wdir):
     path = os.path.join(wdir, "one_case.v")
     with open(path, "w") as f:
-        f.write("From LC Require Import %s.\nOpen Scope N_scope.\nEval vm_compute in %s.\n" % (run_module, case.model))
+        f.write("From LC Require Import %s.\nOpen Scope N_scope.\n" % run_module)
+        for name, term in DEFS.items():
+            if name in case.model:
+                f.write("Definition %s := %s.\n" % (name, term))
+        f.write("Eval vm_compute in %s.\n" % case.model)
     rc, out = run(["timeout", "600", "coqc", "-noglob"] + coq_flags() + [path], cwd=wdir, timeout=700)
     return " ".join(out.split())[:4000]
 
